@@ -298,6 +298,35 @@ ADDED = {
     "C20": " Added: NaN and array-like values (identity of the objects on both sides, no raise), a link removed or moved to another partner by "
            "an earlier handler of the change being dispatched.",
 }
+ADDED3 = {
+    "C01": " Round 3: validated Property(<inner>) configurations, cloned Instance definitions, ValidatedTuple with numeric strings, the "
+           "pure-Python Base* types, PrefixList / PrefixMap decided for every string of length <= 8.",
+    "C02": " Round 3: deferring traits with handlers attached late, the default legacy exception handler with unprintable values, an "
+           "inherited @observe method with a magic name, definitions inherited with a new default / used a second time.",
+    "C03": " Round 3: This with a subclass instance, cast types with raising __str__/__bytes__/__bool__, forward references in compounds.",
+    "C04": " Round 3: sharing obligations (one definition object, two attributes / two objects), Undefined items, list refinement.",
+    "C05": " Round 3: unnamed object-level handler route, traits added with add_trait next to silent foreign twins, the list itself as operand, "
+           "index objects in replays.",
+    "C06": " Round 3: owner variants (anytrait route, added traits, falsy owner), typed validators with equal-but-wrong-typed keys.",
+    "C07": " Round 3: the set itself as operand, sets of frozensets with mutable-set arguments, frozen members.",
+    "C08": " Round 3: add_trait under a metadata-filtered link, Any-typed boxes and dict children, deletion of links.",
+    "C09": " Round 3: the maintainer multiset algebra (value-equal owners are different owners), decorated observers through a diamond.",
+    "C10": " Round 3: dict-subclass defaults, one definition object carrying a default method for one attribute only, shared definitions.",
+    "C11": " Round 3: delegate objects that all compare equal, targets with comparison_mode none re-assigned their identical value.",
+    "C12": " Round 3: identity-mode dependency, cached getter overridden in a subclass, an object with only an unnamed listener.",
+    "C13": " Round 3: writes through renaming delegations onto strict / private delegates (setattr_delegate interpreted), definitions "
+           "transplanted with add_trait (as is, copy, deepcopy, pickle), remove_trait takes the value away.",
+    "C14": " Round 3: Dict keyed by nodes, mapped shadow under a quiet restore, copy.copy of definitions, the original definition unaffected.",
+    "C15": " Round 3: derivations of 9-15 tokens (group with a common first name inside a series), '+items', metadata-filter semantics.",
+    "C16": " Round 3: registration forms - equal listener objects, decorated with post_init / constructor arguments, re-declared by a subclass.",
+    "C17": " Round 3: stand-in objects whose __class__ lies, supports_protocol against adapt, @provides declarations.",
+    "C18": " Round 3: raising post_setattr, class prefix without __prefix__, garbage-collector support (traverse / clear against the struct "
+           "declarations), the constructor path.",
+    "C19": " Round 3: default method failing inside an assignment, observer filter failing at its k-th call during removal.",
+    "C20": " Round 3: run-time added list traits with a bystander, rejected quiet updates followed by ordinary traffic.",
+}
+for _k, _v in ADDED3.items():
+    ADDED[_k] = ADDED.get(_k, "") + _v
 for _k, _v in ADDED.items():
     if _k in CHECKS:
         CHECKS[_k]["text"] = CHECKS[_k]["text"] + _v
